@@ -30,7 +30,7 @@ def run(ctx):
                 "all are non-trivial (the fault is really taken: the run fails or tolerates it)",
            states=st["states"], transitions=st["transitions"], traces_validated_against_impl=st["traces"],
            operations=summ["ops"], skipped=summ.get("skipped", []), outcomes=dict(collections.Counter(r["outcome"] for r in rows)),
-           monitor_binding_drift=st["drift"], exhaustive=(ctx.tier == "thorough"))
+           monitor_binding_drift=st["drift"], staged_protocol_inclusion=st.get("staged"), exhaustive=(ctx.tier == "thorough"))
     for r in rows[:3]:
         ev.sample({k: r[k] for k in ("op", "cfg", "k", "kind", "at", "outcome", "diff", "verdict")})
     ev.sample(sample)
